@@ -192,6 +192,30 @@ def run_obligation(ob, scratch, tier, kf_defines):
     wd = os.path.join(scratch, "ob_" + re.sub(r"[^\w.]", "_", ob["id"]))
     os.makedirs(wd, exist_ok=True)
     res["workdir"] = wd
+    if ob["route"] == "L":   # spec-level lemma / supporting fact checked by an external tool (Lean, python3)
+        cmd = [c.replace("{VERIF}", VERIF).replace("{SCRATCH}", scratch) for c in ob["cmd"]]
+        rc, out, err = sh(cmd, wd, resolve(ob.get("timeout_s", 300), tier), resolve(ob.get("mem_gb", 8), tier), res["log"])
+        res["checker_cmd"] = " ".join(cmd)
+        res["n_props"] = 1
+        res["backend"] = ob.get("backend", cmd[0])
+        res["wall_s"] = round(time.time() - t0, 1)
+        res["defines"] = {}
+        txt = (out or "") + (err or "")
+        if rc == 0 and "error" not in txt.lower():
+            res["status"] = "discharged"
+            res["n_ok"] = 1
+            res["classes"] = {"lemma": {"total": 1, "ok": 1}}
+            res["samples"] = [{"obligation": ob["id"], "class": "lemma", "description": ob.get("group", ""), "output": txt[-300:]}]
+        elif rc is None:
+            res["reason"] = "lemma checker timed out"
+        elif rc == 1 and ob.get("rc1_is_violation"):
+            res["status"] = "violated"
+            res["classes"] = {"lemma": {"total": 1, "ok": 0}}
+            res["failures"] = [{"property": ob["id"], "description": "V:post " + ob.get("group", ob["id"]) + ": " + txt[-600:],
+                                "class": "contract.post", "status": "FAILURE", "location": ob["cmd"][-1], "trace_tail": txt.splitlines()[-30:]}]
+        else:
+            res["reason"] = "lemma checker failed (rc=%s): %s" % (rc, txt[-600:])
+        return res
     try:
         vdir, injected = variant_dir(scratch, ob)
     except S.StageError as e:
@@ -224,6 +248,15 @@ def run_obligation(ob, scratch, tier, kf_defines):
         uwflags = ["--unwindset", ",".join("%s:%d" % (k, v) for k, v in sorted(uw.items()))]
     route = ob["route"]
     if route == "D":
+        if ob.get("restrict_fp"):
+            gi0 = ["goto-instrument"]
+            for r_ in ob["restrict_fp"]:
+                gi0 += ["--restrict-function-pointer", r_]
+            rc, out, err = sh(gi0 + ["a.gb", "a_r.gb"], wd, 120, 4, log)
+            if rc != 0:
+                res["reason"] = "goto-instrument (restrict function pointers) failed: " + (err or out)[-1500:]
+                return res
+            shutil.move(os.path.join(wd, "a_r.gb"), os.path.join(wd, "a.gb"))
         gi = ["goto-instrument"]
         pre_uw = resolve(ob.get("pre_unwindset", {}), tier)
         if pre_uw:
@@ -252,6 +285,9 @@ def run_obligation(ob, scratch, tier, kf_defines):
             return res
         binf = "b.gb"
     flags = list(ob.get("checks", DEFAULT_CHECKS)) + list(ob.get("extra_flags", []))
+    if ob.get("backend"):   # SMT back end instead of CaDiCaL (recorded in the evidence)
+        i_ = flags.index("--sat-solver")
+        flags[i_:i_ + 2] = ["--" + ob["backend"]]
     cmd = ["cbmc", binf, "--json-ui", "--trace"] + flags + uwflags
     if uw or ob.get("unwind_default") is not None:
         cmd += ["--unwinding-assertions"]
